@@ -325,7 +325,7 @@ def _observable_log(ctx, SB):
     ox = SigmaX()
     ox.name = 'X "flip"'
     names = [oz.name, ox.name, "SigmaZ"]
-    ev = SB(2, [oz, ox, SigmaZ()], verbose=False, log="LOG", num_samples=5)
+    ev = SB(2, (o for o in [oz, ox, SigmaZ()]), verbose=False, log="LOG", num_samples=5)     # a one-shot iterable of observables
     now = [0]
 
     class Sys:
